@@ -43,3 +43,13 @@ var verifExactTriSign bool
 
 // VerifSetExactTriSign sets the counter-factual switch.
 func VerifSetExactTriSign(on bool) { verifExactTriSign = on }
+
+// VerifSimplifyHook, when set, receives the index of every vertex SimplifyPath64 /
+// SimplifyPathD removes, in removal order (one call per removal).
+var VerifSimplifyHook func(idx int)
+
+func verifSimplifyRemoved(idx int) {
+	if VerifSimplifyHook != nil {
+		VerifSimplifyHook(idx)
+	}
+}
